@@ -596,6 +596,10 @@ def o_c09(v):
                 return '%s: forever job %s outlives the run (run over at tick %d, vt %s)' % (S, m, end[0], end[1])
         if end[1] > last[1] + slack(v, S) + 1e-9:
             return '%s: run ended at %s, not as soon as its last regular job finished (%s)' % (S, end[1], last[1])
+    # "forever jobs start under the same requirement and window rules as any job"
+    err = o_c12(v, only=lambda m: bool(v.b.spec[m].get('forever')))
+    if err:
+        return err + ' (a forever job)'
     # "forever jobs never outlive the run", at any depth: once the top-level run has returned nothing that is a
     # forever job, or lies inside a forever nested scheduler, is still going
     top = v.b.top.name
@@ -668,7 +672,8 @@ def clean_run(v, S):
     return cause == 'NONE' and not tie
 
 
-def o_c12(v):
+def o_c12(v, only=None):
+    """`only`: a predicate on member names (C09 uses it for 'forever jobs start under the same rules as any job')"""
     err = unexpected_exception(v)
     if err:
         return err
@@ -706,6 +711,8 @@ def o_c12(v):
             req[a].append(c)
         w = sp.get('window')
         for m in v.b.members[S]:
+            if only is not None and not only(m):
+                continue
             rs = [v.first(c, 'exit-ret', 'exit-raise') for c in req[m]]
             if any(e is None for e in rs):
                 continue
@@ -734,6 +741,8 @@ def o_c12(v):
                     elig = all(e is not None and e[0] <= last_tick for e in rs)
                     if elig and (en is None or en[0] > last_tick):
                         waiting.append(m)
+                if only is not None:
+                    waiting = [m for m in waiting if only(m)]
                 if waiting and running < w:
                     return '%s: at vt=%s only %d of %d slots busy while %s is eligible and waiting' % (S, t, running, w, waiting)
     return None
